@@ -397,6 +397,7 @@ func numArg(v rt.Value) uint64 {
 
 func newLuaHost() *luaHost {
 	h := &luaHost{s: gl.NewSess(gl.Options{})}
+	h.s.BareCall = true // templates run at the runtime's top level, like an embedder's rt.Call
 	r := h.s.R
 	r.SetEnvGoFunc(r.GlobalEnv(), "depth", func(t *rt.Thread, c *rt.GoCont) (rt.Cont, error) {
 		return c.PushingNext1(t.Runtime, rt.IntValue(int64(rt.VerifContextDepth(t.Runtime)))), nil
@@ -481,10 +482,10 @@ func checkEvent(e *luaEvent, n *node) []string {
 	}
 	// used < kill
 	if e.killCpu > 0 && e.usedCpu >= e.killCpu {
-		f("used.cpu %d has reached kill.cpu %d", e.usedCpu, e.killCpu)
+		f("used>=kill.cpu: used.cpu %d has reached kill.cpu %d", e.usedCpu, e.killCpu)
 	}
 	if e.killMem > 0 && e.usedMem >= e.killMem {
-		f("used.memory %d has reached kill.memory %d", e.usedMem, e.killMem)
+		f("used>=kill.memory: used.memory %d has reached kill.memory %d", e.usedMem, e.killMem)
 	}
 	// conservation: what the child used was charged to the parent
 	if e.pk > 0 && e.ua < e.ub+e.usedCpu {
@@ -547,14 +548,14 @@ func checkEvent(e *luaEvent, n *node) []string {
 			f("status: Lua sees %q, the Go object says %q", e.status, st)
 		}
 		if u := e.ctx.UsedResources(); u.Cpu != e.usedCpu || e.ctx.HardLimits().Cpu != e.killCpu {
-			f("Lua view (used %d kill %d) differs from the Go object (used %d kill %d)", e.usedCpu, e.killCpu, u.Cpu, e.ctx.HardLimits().Cpu)
+			f("lua-vs-go: Lua view (used %d kill %d) differs from the Go object (used %d kill %d)", e.usedCpu, e.killCpu, u.Cpu, e.ctx.HardLimits().Cpu)
 		}
 	}
 	return bad
 }
 
 func clauseOf(msg string) string {
-	if i := strings.IndexByte(msg, ':'); i > 0 && i < 20 {
+	if i := strings.IndexByte(msg, ':'); i > 0 && i < 24 {
 		return msg[:i]
 	}
 	w := strings.Fields(msg)
@@ -776,7 +777,7 @@ var maxPermille int64
 func runLua(c *vp.Child) {
 	h := newLuaHost()
 	defer func() { h.s.Close() }()
-	n := c.Pick(6000, 200000) / c.NB
+	n := c.Pick(3000, 40000) / c.NB
 	seedR := c.Rand("lua")
 	for i := 0; i < n; i++ {
 		seed := seedR.Int63()
@@ -784,10 +785,12 @@ func runLua(c *vp.Child) {
 		c.Begin(fmt.Sprintf("lua %d seed %d", i, seed), lc.text)
 		ok := h.runCase(c, lc, i)
 		nKilled, depthMax := 0, 0
-		for _, nd := range lc.nodes {
-			if nd.reported && nd.status == "killed" || nd.S > 0 {
-				nKilled++
+		for _, e := range h.events {
+			if e.status == "killed" || e.due {
+				nKilled++ // a hard limit (or kill) or a soft limit (or stop) was reached
 			}
+		}
+		for _, nd := range lc.nodes {
 			d := 0
 			for p := nd; p != nil; p = p.parent {
 				d++
@@ -816,17 +819,13 @@ func runLua(c *vp.Child) {
 	}
 	// templates for yields across a context boundary
 	r := c.Rand("desync")
-	for i := 0; i < c.Pick(3, 12); i++ {
-		if !c.Mine(i) && c.NB > 1 && i >= len(desyncTemplates) {
-			continue
-		}
-		lc := genDesyncCase(i+c.Batch, r)
+	for i := 0; i < len(desyncTemplates)*c.Pick(1, 4); i++ {
+		lc := genDesyncCase(i, r)
 		c.Begin(fmt.Sprintf("lua template %s", lc.class), lc.text)
-		h.runCase(c, lc, i)
 		h.s.Close()
 		h = newLuaHost()
+		h.runCase(c, lc, i)
 	}
-	c.Feature("max-used-permille-of-limit-in-finite-contexts", 0)
 	c.Output("max_used_permille", strconv.FormatInt(maxPermille, 10))
 	if maxPermille > 0 {
 		c.Feature(fmt.Sprintf("finite-contexts-used-at-most-permille-of-limit/%04d", (maxPermille/50+1)*50), 1)
